@@ -366,4 +366,99 @@ theorem serializeHtmlStringN_norm (env : Env) (p : HtmlParams) (t : Tree) (start
   unfold serializeHtmlStringN serializeHtmlString
   rw [serializeHtmlWriteN_norm N env p t start hns hb hs]
 
+/-! ### The normalizer never decides about success -/
+
+/-- One `render_output` call: same outcome kind, same error, same next state under every normalizer
+    (only the token text depends on it). -/
+theorem renderHtmlN_outcome (c : HtmlCtx) (s : HState) (node : Tree) (parent : Option Tree) (o : Output) :
+    (renderHtmlN N c s node parent o).mapOk Prod.fst = (renderHtml c s node parent o).mapOk Prod.fst := by
+  cases o with
+  | startTagOpen name =>
+    simp only [renderHtmlN, renderHtml]
+    split
+    · rfl
+    · cases FStack.elementFullname c.env (s.stack.push (htmlDeclarations node (c.env.nsOfName name))) name <;> rfl
+  | pfx p ns =>
+    simp only [renderHtmlN, renderHtml]
+    cases node.value <;> try rfl
+    simp only
+    split
+    · rfl
+    · split <;> rfl
+  | text s => rfl
+  | startTagClose => rfl
+  | endTag name =>
+    simp only [renderHtmlN, renderHtml]
+    split
+    · rfl
+    · cases FStack.elementFullname c.env s.stack name <;> rfl
+  | comment s => rfl
+  | pi target data =>
+    simp only [renderHtmlN, renderHtml]
+    split
+    · rfl
+    · cases data <;> rfl
+  | _ =>
+    simp only [renderHtmlN, renderHtml]
+    rename_i name value
+    cases FStack.attributeFullname c.env s.stack name with
+    | error e => rfl
+    | ok full =>
+      cases htmlIsBooleanAttr c s.stack name value with
+      | error e => rfl
+      | ok b => cases b <;> rfl
+
+theorem renderHtmlAtN_outcome (c : HtmlCtx) (t : Tree) (s : HState) (path : Path) (o : Output) :
+    (renderHtmlAtN N c t s path o).mapOk Prod.fst = (renderHtmlAt c t s path o).mapOk Prod.fst := by
+  unfold renderHtmlAtN renderHtmlAt
+  cases t.at? path with
+  | none => rfl
+  | some node => exact renderHtmlN_outcome N c s node _ o
+
+theorem writeHtmlGoN_outcome (c : HtmlCtx) (t : Tree) (s : HState) (outs : List (Path × Output)) :
+    (writeHtmlGoN N c t s outs).2 = (writeHtmlGo c t s outs).2 := by
+  induction outs generalizing s with
+  | nil => rfl
+  | cons po rest ih =>
+    obtain ⟨p, o⟩ := po
+    have h := renderHtmlAtN_outcome N c t s p o
+    simp only [writeHtmlGoN, writeHtmlGo]
+    cases h1 : renderHtmlAtN N c t s p o <;> cases h2 : renderHtmlAt c t s p o <;>
+      simp only [h1, h2, Outcome.mapOk, Outcome.ok.injEq, Outcome.err.injEq, reduceCtorEq] at h
+    · rename_i r1 r2
+      obtain ⟨s1, k1⟩ := r1
+      obtain ⟨s2, k2⟩ := r2
+      simp only at h
+      subst h
+      exact ih s1
+    · subst h; rfl
+    · rfl
+
+theorem writeHtmlPrettyGoN_outcome (c : HtmlCtx) (sup : List Nat) (t : Tree) (ps : PStack) (s : HState)
+    (outs : List (Path × Output)) :
+    (writeHtmlPrettyGoN N c sup t ps s outs).2 = (writeHtmlPrettyGo c sup t ps s outs).2 := by
+  induction outs generalizing ps s with
+  | nil => rfl
+  | cons po rest ih =>
+    obtain ⟨p, o⟩ := po
+    have h := renderHtmlAtN_outcome N c t s p o
+    simp only [writeHtmlPrettyGoN, writeHtmlPrettyGo]
+    cases h1 : renderHtmlAtN N c t s p o <;> cases h2 : renderHtmlAt c t s p o <;>
+      simp only [h1, h2, Outcome.mapOk, Outcome.ok.injEq, Outcome.err.injEq, reduceCtorEq] at h
+    · rename_i r1 r2
+      obtain ⟨s1, k1⟩ := r1
+      obtain ⟨s2, k2⟩ := r2
+      simp only at h
+      subst h
+      exact ih _ s1
+    · subst h; rfl
+    · rfl
+
+/-- Under EVERY normalizer the call ends as it ends without one: success, the same error, never a panic. -/
+theorem serializeHtmlWriteN_outcome (env : Env) (p : HtmlParams) (t : Tree) (start : Path) :
+    (serializeHtmlWriteN N env p t start).2 = (serializeHtmlWrite env p t start).2 := by
+  unfold serializeHtmlWriteN serializeHtmlWrite
+  cases p.indentation with
+  | none => exact writeHtmlGoN_outcome N _ t _ _
+  | some sup => exact writeHtmlPrettyGoN_outcome N _ sup t _ _ _
 end XotModel
